@@ -812,3 +812,28 @@ package gnet
 //@   ensures c.loop == old(c.loop) && c.fd == old(c.fd) && elwf(c.loop)
 //@   ensures !c.opened && CZ(c) && nacb == old(nacb)
 //@   ensures old(c.opened) ==> nclose[c] == 1 && owner[c.fd] == nil && !cerr[c]
+
+// ---------------------------------------------------------------------------------------------
+// Loop exit (C07, "closed at the latest when Run returns"): whatever makes Polling return - a requested shutdown or an
+// error such as a failed accept - a loop that owns connections sweeps its registry exactly once (closeConns closes every
+// connection still registered) and signals the engine's shutdown before it returns.
+// closeConns is an assumed contract: iterating the registry is Go's map range under deletion, which gvc does not model;
+// nsweep counts its calls per loop (bookkeeping).
+//@ ghost log nsweep map[Ref]int
+//@ func (el *eventloop) closeConns()
+//@   noverify iteration of the registry (map range under deletion) closing each connection through eventloop.close
+//@   requires el != nil
+//@   modifies-all-except eventloop, engine, Options, netpoll.Poller, listener, asyncWriteHook, asyncWritevHook, map[int]*listener, ghost:nsweep, ghost:shutsig
+//@   modifies nsweep[el]
+//@   ghostdef nsweep[el] := old(nsweep[el]) + 1
+//
+//@ func (el *eventloop) run() (err error)
+//@   requires el != nil && el.engine != nil && el.engine.opts != nil && el.engine.opts.Logger != nil && el.poller != nil
+//@   modifies-all-except eventloop, engine, Options, netpoll.Poller, listener, asyncWriteHook, asyncWritevHook, map[int]*listener
+//@   ensures nsweep[el] == old(nsweep[el]) + 1 && shutsig
+//
+//@ func (el *eventloop) orbit() (err error)
+//@   requires el != nil && el.engine != nil && el.engine.opts != nil && el.engine.opts.Logger != nil && el.poller != nil
+//@   modifies-all-except eventloop, engine, Options, netpoll.Poller, listener, asyncWriteHook, asyncWritevHook, map[int]*listener
+//@   ensures nsweep[el] == old(nsweep[el]) + 1 && shutsig
+
